@@ -31,6 +31,19 @@ var c03Content = func() []item {
 		itR(refdl.Rule{Head: atom("widened", vx), Body: []refdl.Atom{atom("scopes", vx)}, Exprs: [][]rx.Op{{
 			{Kind: rx.OpValue, V: vx}, {Kind: rx.OpValue, V: rx.SetOf(rx.Str("root"))}, {Kind: rx.OpBinary, B: rx.Union},
 			{Kind: rx.OpValue, V: rx.Str("root")}, {Kind: rx.OpBinary, B: rx.Contains}}}}),
+		// the result of one set operation is the operand of the next: $x.union(subset).intersection(smaller),
+		// $x.intersection(prefix).union(new element)
+		itR(refdl.Rule{Head: atom("chained"), Body: []refdl.Atom{atom("scopes", vx)}, Exprs: [][]rx.Op{{
+			{Kind: rx.OpValue, V: vx}, {Kind: rx.OpValue, V: rx.SetOf(sWrite)}, {Kind: rx.OpBinary, B: rx.Union},
+			{Kind: rx.OpValue, V: rx.SetOf(sWrite)}, {Kind: rx.OpBinary, B: rx.Intersection},
+			{Kind: rx.OpUnary, U: rx.Length}, {Kind: rx.OpValue, V: rx.Int(1)}, {Kind: rx.OpBinary, B: rx.Equal}}}}),
+		// a rule the engine refuses at evaluation (head variable not bound by the body): authorization fails,
+		// and what the block carried must still be invisible to later queries on that authorizer
+		itR(rule(atom("promoted", vy), atom("user", vx))),
+		itR(refdl.Rule{Head: atom("rechained", vx), Body: []refdl.Atom{atom("scopes", vx)}, Exprs: [][]rx.Op{{
+			{Kind: rx.OpValue, V: vx}, {Kind: rx.OpValue, V: rx.SetOf(sRead, sWrite)}, {Kind: rx.OpBinary, B: rx.Intersection},
+			{Kind: rx.OpValue, V: rx.SetOf(rx.Str("root"))}, {Kind: rx.OpBinary, B: rx.Union},
+			{Kind: rx.OpUnary, U: rx.Length}, {Kind: rx.OpValue, V: rx.Int(3)}, {Kind: rx.OpBinary, B: rx.Equal}}}}),
 	)
 	return out
 }()
@@ -238,7 +251,27 @@ func init() {
 					w.Violate("C03:"+sig, human(), got, want)
 				}
 				d, e, a, b, cs := obs["d"], obs["e"], obs["a"], obs["b"], obs["c"]
+				xFails := false
+				for _, r := range x.Rules {
+					xFails = xFails || r.Head.Name == "promoted"
+				}
 				switch {
+				case xFails:
+					// evaluating the block fails, so outcomes legitimately differ from the token without X;
+					// the authorizer's own world, as Query shows it, must not
+					switch {
+					case !sameStrings(d.before, e.before) || !sameStrings(a.before, e.before):
+						bad("query-before-authorize-sees-block", strings.Join(d.before, " ")+" / "+strings.Join(a.before, " "), strings.Join(e.before, " "))
+					case !sameStrings(d.after, e.after):
+						bad("query-after-failed-authorize-sees-block", strings.Join(d.after, " "), strings.Join(e.after, " "))
+					case !sameStrings(a.after, e.after):
+						bad("query-after-failed-authorize-sees-block", strings.Join(a.after, " "), strings.Join(e.after, " "))
+					case !sameStrings(cs.after, e.after):
+						bad("query-after-failed-authorize-sees-block", strings.Join(cs.after, " "), strings.Join(e.after, " "))
+					default:
+						w.Class("block-evaluation-fails:" + a.out.Class)
+						w.NontrivialByIndex()
+					}
 				case d.out.Class != e.out.Class:
 					bad("check-free-block-changes-outcome", "with X: "+d.out.String(), "without X: "+e.out.String())
 				case !sameStrings(d.out.Failed, e.out.Failed):
